@@ -2,6 +2,7 @@ package rules
 
 import (
 	"go/ast"
+	"go/token"
 	"go/types"
 	"strings"
 
@@ -9,8 +10,8 @@ import (
 )
 
 func init() {
-	Register("C14", "Decides, on the per-byte summaries of every state function of the schema-side scanners (notations/jschema/scanner, rules/enum): (nl) LF and CR have identical rows in every state, so the newline convention cannot change the lexeme stream; (blank) in every between-token state SPACE and TAB have identical rows; (norm) rule names are compared only after TrimSpaces().Unquote(), so quoted and bare rule names mean the same; (deleg) re-dispatch of one byte between states terminates. Does NOT decide equality of AST/example/OpenAPI across spellings, nor annotation-style equivalence (// vs /* */).",
-		c14nl, c14blank, c14space, c14norm)
+	Register("C14", "Decides, on the per-byte summaries of every state function of the schema-side scanners (notations/jschema/scanner, rules/enum): (nl) LF and CR have identical rows in every state, so the newline convention cannot change the lexeme stream; (blank) in every between-token state SPACE and TAB have identical rows; (norm) rule names are compared only after TrimSpaces().Unquote(), so quoted and bare rule names mean the same; (deleg) re-dispatch of one byte between states terminates. (space) a skipped blank leaves no trace; (style) every test for one annotation opener is paired with the test for the other. Does NOT decide equality of AST/example/OpenAPI across spellings.",
+		c14nl, c14blank, c14space, c14norm, c14style)
 }
 
 var schemaScanners = []string{"notations/jschema/scanner", "rules/enum"}
@@ -309,3 +310,95 @@ func findDef(pk *packagesPackage, obj types.Object) ast.Expr {
 }
 
 var _ = strings.TrimSpace
+
+// styleTable: comparisons with one annotation opener that legitimately ignore the other.
+var styleTable = map[string]string{
+	"notations/jschema/scanner.stateEndValue:InlineAnnotationBegin":                      "Len() mode only (guarded by lengthComputing): an inline annotation ends the line and thereby the measured schema; boundary search is property C15",
+	"(*rules/enum.scanner).stateEndValue:InlineAnnotationBegin":                          "Len() mode only (guarded by lengthComputing), as in the schema scanner",
+	"(*notations/jschema/scanner.Scanner).isInsideMultiLineAnnotation:MultiLineAnnotationBegin": "the question asked is precisely `is there an enclosing /* */`",
+}
+
+// c14style: `//` and `/* */` annotations are recognised alike.
+func c14style(c *core.Ctx) {
+	const R = "C14.style"
+	c.Rule(R, "every test `x == lexeme.InlineAnnotationBegin` in the scanners and the loader stands in a disjunction with the same test for MultiLineAnnotationBegin on the same operand (and vice versa) - unless it is a row of a begin/end pair table (conjunction with the matching ...End) or a tabled mode-specific test: a place that recognises only one opener gives `// {rules}` and `/* {rules} */` different verdicts")
+	c.Floor(R, 8)
+	other := map[string]string{"InlineAnnotationBegin": "MultiLineAnnotationBegin", "MultiLineAnnotationBegin": "InlineAnnotationBegin"}
+	closer := map[string]string{"InlineAnnotationBegin": "InlineAnnotationEnd", "MultiLineAnnotationBegin": "MultiLineAnnotationEnd"}
+	for _, rel := range []string{"notations/jschema/scanner", "notations/jschema/loader", "rules/enum"} {
+		pk := c.P.Pkg(rel)
+		if pk == nil {
+			c.Unresolved(R, rel)
+			continue
+		}
+		for _, d := range c.P.FuncDecls() {
+			if d.Pkg != pk || d.Decl.Body == nil {
+				continue
+			}
+			fn := core.DeclName(d.Pkg, d.Decl)
+			var stack []ast.Node
+			n := map[string]int{}
+			ast.Inspect(d.Decl.Body, func(nd ast.Node) bool {
+				if nd == nil {
+					stack = stack[:len(stack)-1]
+					return true
+				}
+				stack = append(stack, nd)
+				be, ok := nd.(*ast.BinaryExpr)
+				if !ok || be.Op != token.EQL {
+					return true
+				}
+				which := strings.TrimPrefix(core.ExprStr(be.Y), "lexeme.")
+				if other[which] == "" || !strings.HasPrefix(core.ExprStr(be.Y), "lexeme.") {
+					return true
+				}
+				lhs := core.ExprStr(be.X)
+				// climb the || chain and the && chain
+				twin, paired := false, false
+				for i := len(stack) - 2; i >= 0; i-- {
+					p, ok := stack[i].(*ast.BinaryExpr)
+					if !ok {
+						if _, isParen := stack[i].(*ast.ParenExpr); isParen {
+							continue
+						}
+						break
+					}
+					if p.Op != token.LOR && p.Op != token.LAND {
+						break
+					}
+					ast.Inspect(p, func(m ast.Node) bool {
+						if q, ok := m.(*ast.BinaryExpr); ok && q.Op == token.EQL {
+							if p.Op == token.LOR && core.ExprStr(q.X) == lhs && core.ExprStr(q.Y) == "lexeme."+other[which] {
+								twin = true
+							}
+							if core.ExprStr(q.Y) == "lexeme."+closer[which] {
+								paired = true
+							}
+						}
+						return true
+					})
+				}
+				n[which]++
+				key := core.F("%s:%s", fn, which)
+				if n[which] > 1 {
+					key = core.F("%s:%s#%d", fn, which, n[which])
+				}
+				pos := c.P.Pos(be.Pos())
+				what := "`" + lhs + " == lexeme." + which + "` in " + fn
+				switch {
+				case twin:
+					c.OKd(R, key, pos, what, "in a disjunction with the same test for "+other[which])
+				case paired:
+					c.OKd(R, key, pos, what, "row of a begin/end pair table")
+				default:
+					if r, ok := styleTable[core.F("%s:%s", fn, which)]; ok {
+						c.Tabled(R, key, pos, what, r)
+					} else {
+						c.Bad(R, key, pos, what, "only one of the two annotation openers is recognised here: the other annotation style takes a different path (a different verdict or a different AST)")
+					}
+				}
+				return true
+			})
+		}
+	}
+}
